@@ -103,6 +103,15 @@ def verdict(rc):
         if fi is None:
             raise AnalysisError(f"{name} vanished")
 
+        # the p-value is whatever the non-boolean result reports in position 1
+        tup = [r.value for r in returns_of(fi) if isinstance(r.value, ast.Tuple) and len(r.value.elts) >= 2]
+        if not tup or dotted(tup[0].elts[1]) is None:
+            raise AnalysisError(f"{name}: cannot identify the p-value (non-boolean result tuple not found)")
+        pname = dotted(tup[0].elts[1])
+
+        def _cmp(e, pname=pname):
+            return _cmp_p(e, pname)
+
         def atomize(e):
             if dotted(e) == "boolean":
                 return A("boolean")
@@ -150,12 +159,12 @@ def _is_sig(e):
         or (isinstance(e, ast.Call) and call_name(e) == "get" and e.args and const_str(e.args[0]) == "significance_level")
 
 
-def _cmp(e):
+def _cmp_p(e, pname):
     if isinstance(e, ast.Compare) and len(e.ops) == 1:
         l, o, r = e.left, e.ops[0], e.comparators[0]
-        if dotted(l) == "p_value" and _is_sig(r):
+        if dotted(l) == pname and _is_sig(r):
             pass
-        elif dotted(r) == "p_value" and _is_sig(l):
+        elif dotted(r) == pname and _is_sig(l):
             o = {ast.Gt: ast.Lt, ast.GtE: ast.LtE, ast.Lt: ast.Gt, ast.LtE: ast.GtE}.get(type(o), type(o))()
         else:
             return None
